@@ -99,7 +99,9 @@ class _Pacing(object):
 
 def protocol_args(protocol):
     """(name part, argument list) describing a protocol in F"""
-    if protocol is None:
+    if protocol is None or len(protocol.events()) == 0:
+        # myokit: without a protocol, and with a protocol without events, the
+        # pacing variable is 0 at all times -- the same simulated system
         return 'noprot', []
     args = []
     mult = []
